@@ -15,7 +15,7 @@ import random
 from . import tm
 from .driver import Accounting, Suspend, Task
 from .graph import build_paths, stream_replays
-from .instruments import Cancelled, InjectedError
+from .instruments import Cancelled, InjectedBaseError, InjectedError
 from .report import Verdict
 from .tlc import MachineryError, read_ndjson, run_tlc
 from .tracecheck import validate
@@ -44,7 +44,8 @@ class LruSys:
                 await Suspend(sys_.acct, ("fn", t, j))
             if sys_.fail_task and sys_.fail_task == sys_.current == t:
                 sys_.fail_task = 0
-                sys_.fail_exc[t] = InjectedError("fn failed")
+                sys_.nfail = getattr(sys_, "nfail", 0) + 1
+                sys_.fail_exc[t] = (InjectedBaseError if sys_.nfail % 2 == 0 else InjectedError)("fn failed")
                 raise sys_.fail_exc[t]
             sys_.ev(e="fnret", i=i)
             return ("val", k, i)
